@@ -1,38 +1,89 @@
 """C11 - optional/complex vectors and arrays keep their two parallel storages in lockstep.
 
+ 0. Signature table (harness/parseq/sigprobe.cpp): every access path yields the same proxy type, the proxy's components
+    are references into the two underlying containers, the containers are reachable - as static_asserts; a failing row is
+    a violation.  If the conformance driver then does not build, call probes (harness/parseq/callprobe.cpp) tell a call
+    the property names that no longer compiles (violation) from a harness that needs maintenance (machinery error).
  1. TLC: ParSeq.tla (L1: a container is ONE sequence of pairs; the two storages are projections)
     with its own laws, two objects, every operation (exhaustive in small bounds).
+ 1b. TLC: ParSeqImpl.tla (L2: two separately sized storages, transcribed from the headers) keeps them in lockstep and
+    refines L1.
  2. S->C: TLC enumerates every (state, operation, argument) transition of L1 for sizes 0..3 (0..4 in
-    the thorough tier) on the four container families; each is replayed on the real
-    xoptional_vector<int>, xoptional_array<int,3>, xcomplex_vector<double>, xcomplex_array<double,3>;
-    TLC simulation walks add longer two-object histories.
- 3. C->S: seeded random scripts on six instantiations, sizes up to 200 (the flag storage is an
-    xdynamic_bitset<size_t>: 64-bit block boundary at 64/128), extents 3, 66, 70 for the arrays.
+    the thorough tier) on the four container families (and the extent-0 arrays); a sample stratified over container
+    type x action x argument class (thorough: all of them) is replayed on the real xoptional_vector<int>,
+    xoptional_array<int,3>, xcomplex_vector<double>, xcomplex_array<double,3> and, a smaller sample, on
+    xoptional_vector<double>, optional containers with std::vector<bool> / std::array<bool,3> flags, ieee_compliant
+    complex containers; TLC simulation walks add longer two-object histories.
+ 3. C->S: seeded random scripts on thirteen instantiations, sizes up to 200 (the flag storage is an
+    xdynamic_bitset<size_t>: 64-bit block boundary at 64/128), extents 0, 3, 66, 70 for the arrays, on several builds
+    of the driver (g++ -O1 ASan; g++ -O2 -DNDEBUG; thorough: clang++ ASan, g++ -O0).
  Every recorded step (result + size(), value().size(), has_value().size(), elements read from the
  underlying containers, through operator[] and by forward/reverse iteration, ==/!=) is validated by
- TLC against ParSeqTrace.tla (L1 is the oracle).
+ TLC against ParSeqTrace.tla (L1 is the oracle).  A driver that crashes, trips a sanitizer or exceeds its per-call CPU
+ limit closes the trace with a Crash event (rejected by the spec) and is restarted at the next execution of the script.
 """
-import json, os, random, subprocess
+import json, os, random, re, subprocess, threading
 from concurrent.futures import ThreadPoolExecutor
-from vlib import core, tlaval
+from vlib import core, tlaval, drvrun
 from vlib.core import MachineryError
 
 PID = "C11"
+# development aid (mutation experiments): VERIF_DEV_FAST=1 skips the stages that do not depend on the include tree under
+# test (TLC on L1/L2) and caches TLC's enumeration of the L1 transitions; never set by the registered commands
+FAST = bool(os.environ.get("VERIF_DEV_FAST"))
+# development aid: VERIF_DEV_STAGES=rnd runs only the primary driver build with the seeded random scripts, the upstream
+# sequences and the probes (a subset of the check: what it rejects, the whole check rejects)
+ONLY_RND = os.environ.get("VERIF_DEV_STAGES") == "rnd"
 HDIR = os.path.join(core.HARNESS, "parseq")
-# type key -> (flavour, container, extent)
-TYPES = {"ov": ("optional", "vector", 0), "oa3": ("optional", "array", 3), "oa70": ("optional", "array", 70),
-         "cv": ("complex", "vector", 0), "ca3": ("complex", "array", 3), "ca66": ("complex", "array", 66)}
-KEY_OF = {v: k for k, v in TYPES.items()}
+# type key -> (flavour, container, extent, driver group, the key whose TLC configuration it shares)
+TYPES = {"ov": ("optional", "vector", 0, 1, "ov"), "oa3": ("optional", "array", 3, 1, "oa3"), "oa70": ("optional", "array", 70, 1, None),
+         "cv": ("complex", "vector", 0, 1, "cv"), "ca3": ("complex", "array", 3, 1, "ca3"), "ca66": ("complex", "array", 66, 1, None),
+         "ovd": ("optional", "vector", 0, 2, "ov"), "ovb": ("optional", "vector", 0, 2, "ov"), "oab3": ("optional", "array", 3, 2, "oa3"),
+         "oa0": ("optional", "array", 0, 2, "oa0"), "ca0": ("complex", "array", 0, 2, "ca0"),
+         "cvi": ("complex", "vector", 0, 2, "cv"), "cai3": ("complex", "array", 3, 2, "ca3")}
+WHAT = {"ov": "xoptional_vector<int>", "oa3": "xoptional_array<int,3>", "oa70": "xoptional_array<int,70>", "cv": "xcomplex_vector<double>",
+        "ca3": "xcomplex_array<double,3>", "ca66": "xcomplex_array<double,66>", "ovd": "xoptional_vector<double>",
+        "ovb": "xoptional_vector<int, std::allocator<int>, std::vector<bool>>", "oab3": "xoptional_array<int,3,std::array<bool,3>>",
+        "oa0": "xoptional_array<int,0>", "ca0": "xcomplex_array<double,0>", "cvi": "xcomplex_vector<double,true>", "cai3": "xcomplex_array<double,3,true>"}
+PRIMARY = {(v[0], v[1], v[2]): k for k, v in TYPES.items() if v[4] == k}          # TLC configuration -> the type it is replayed on first
+ALIASES = {}                                                                    # primary key -> other types of the same configuration
+for _k, _v in TYPES.items():
+    if _v[4] and _v[4] != _k:
+        ALIASES.setdefault(_v[4], []).append(_k)
 ITER_PATHS = ("iter", "citer", "riter", "criter")
 NAVS = ("plus", "minus", "inc", "dec", "sub", "arrow", "peq", "meq", "postinc")
 READ_PATHS = ("index", "cindex", "at", "cat", "front", "cfront", "back", "cback") + ITER_PATHS
 WRITE_PATHS = ("index", "at", "front", "back", "iter", "riter")
-OBSERVERS = {"At", "Read", "Extract", "IterRel", "Feature"}
+OBSERVERS = {"At", "Read", "Extract", "IterRel", "Feature", "MaxSize", "Rel"}
 ALL_OPS = ["CtorDefault", "CtorN", "CtorNV", "CtorNO", "CtorIL", "CtorCopy", "CopyAssign", "CtorMove", "MoveAssign",
-           "Resize", "ResizeV", "ResizeO", "At", "Read", "Write", "WriteUnder", "Extract", "IterRel"]
+           "Resize", "ResizeV", "ResizeO", "At", "Read", "Write", "WriteUnder", "Extract", "IterRel", "ProxySwap", "MaxSize", "Rel"]
 MOVES = {"CtorMove", "MoveAssign"}
 BIG_SIZES = [0, 1, 2, 3, 5, 8, 63, 64, 65, 66, 127, 128, 129, 200]
 SMALL_SIZES = [0, 1, 2, 3, 4, 5, 8]
+SIG_ROWS = 22
+CALL_PROBES = [
+    (1, True, "optional containers: default, (n, value), (n, optional) constructors"),
+    (2, True, "complex containers: default, (n), (n, value), (n, xcomplex), initializer-list constructors"),
+    (3, True, "copy construction / copy assignment"),
+    (4, True, "resize(n), resize(n, value), resize(n, optional / xcomplex)"),
+    (5, True, "at, operator[], front, back, const and non-const"),
+    (6, True, "forward and const iterators (begin/end/cbegin/cend, ++, --, +=, -=, +, [], ->, ==, -)"),
+    (7, True, "reverse iterators"),
+    (8, True, "writes through optional proxies (value(), has_value(), = scalar, = xoptional)"),
+    (9, True, "writes through complex proxies (real(), imag(), = scalar)"),
+    (10, True, "value() / has_value() / real() / imag() on lvalue, const and rvalue containers"),
+    (11, True, "== and !="),
+    (12, True, "complex proxy = xcomplex<T>"),
+    (13, False, "move construction / move assignment"),
+    (14, False, "compound assignment through proxies, proxy swap, <,<=,>,>=, max_size"),
+    (15, False, "other instantiations (double values, std::vector<bool>/std::array<bool> flags, extent 0, ieee_compliant)"),
+]
+FLAVOURS = {"asan": (None, [], True), "o2ndebug": (None, ["-O2", "-DNDEBUG"], False), "clang": ("clang++", [], True), "o0": (None, ["-O0"], False)}
+# instantiations whose moved-from objects are known not to be valid containers on the current tree (proposed_fixes/C11-06,
+# outside the property's operations): a failing probe is a NOTE for these and a violation for every other instantiation
+MOVED_FROM_INVALID_OK = set()   # fix be9fbb5: moving an xoptional_array copies it
+MAX_DRIVER_RESTARTS = 40
+MAX_REPORTED = 12
 
 
 # ------------------------------------------------------------------ build + features
@@ -58,29 +109,32 @@ def probe_features(ctx):
 
 def type_flags(feats, key):
     """(fwd, cas) of a type: what its Reset event announces and the driver was built with."""
-    fl, ct, _ = TYPES[key]
+    fl, ct = TYPES[key][0], TYPES[key][1]
     fwd = 1 if ct == "vector" else int(feats["oaf"] if fl == "optional" else feats["caf"])
     cas = 1 if fl == "optional" else int(feats["cas"])
     return fwd, cas
 
 
-def build_driver(ctx, feats):
-    flags = ["-fno-lifetime-dse"]
+def build_driver(ctx, feats, flavour="asan", group=1):
+    cxx, fflags, asan = FLAVOURS[flavour]
+    # -fno-lifetime-dse: keep the 0xAA pre-fill of the raw storage visible to the constructors (a g++ option; clang has no
+    # such pass and does not know the flag)
+    flags = (["-fno-lifetime-dse"] if cxx in (None, "g++") else []) + ["-DPARSEQ_GROUP=%d" % group] + list(fflags)
     if feats["oaf"]:
         flags.append("-DPARSEQ_OPT_ARRAY_FWD_ITER")
     if feats["caf"]:
         flags.append("-DPARSEQ_CPLX_ARRAY_FWD_ITER")
     if feats["cas"]:
         flags.append("-DPARSEQ_CPLX_ASSIGN")
-    drv = os.path.join(ctx.work, "parseq_driver")
-    core.build(ctx, os.path.join(HDIR, "driver.cpp"), drv, flags=flags)
+    drv = os.path.join(ctx.work, "parseq_driver_%s_g%d" % (flavour, group))
+    core.build(ctx, os.path.join(HDIR, "driver.cpp"), drv, flags=flags, asan=asan, cxx=cxx)
     return drv
 
 
-def reset_event(feats, key):
-    fl, ct, n = TYPES[key]
+def reset_event(feats, key, build="asan"):
+    fl, ct, n = TYPES[key][:3]
     fwd, cas = type_flags(feats, key)
-    return {"op": "Reset", "k": 1, "a": {"fl": fl, "ct": ct, "n": n, "fwd": fwd, "cas": cas}}
+    return {"op": "Reset", "k": 1, "a": {"fl": fl, "ct": ct, "n": n, "fwd": fwd, "cas": cas, "ty": key, "build": build}}
 
 
 def supported(feats, key, ev):
@@ -89,7 +143,7 @@ def supported(feats, key, ev):
     a = ev.get("a", {})
     if not fwd and a.get("path") in ("iter", "citer"):
         return False
-    if not cas and ev["op"] == "Write" and a.get("wk") in ("pair", "from"):
+    if not cas and ev["op"] == "Write" and a.get("wk") in ("pair", "from", "addpair"):
         return False
     return True
 
@@ -99,14 +153,16 @@ class Gen:
     """Random script generator.  Tracks only the two sizes (to stay inside the C++ preconditions:
     index < size, front/back on non-empty, constructor size == extent for arrays); predicts nothing."""
 
-    def __init__(self, rnd, key, feats, big):
+    def __init__(self, rnd, key, feats, big, caps):
         self.r, self.key = rnd, key
-        self.fl, self.ct, self.n = TYPES[key]
+        self.fl, self.ct, self.n = TYPES[key][:3]
         self.fwd, self.cas = type_flags(feats, key)
         self.vec = self.ct == "vector"
         n0 = 0 if self.vec else self.n
         self.size = [n0, n0]
         self.sizes = BIG_SIZES if big else SMALL_SIZES
+        self.moved_ok = bool(caps.get("movedfrom", {}).get(key))
+        self.nmul = 0
 
     def val(self):
         r = self.r
@@ -143,11 +199,11 @@ class Gen:
         t = r.random()
         if t < 0.55:
             return r.choice(self.sizes)
-        if t < 0.8:
+        if t < 0.8 and self.size[k] is not None:
             return max(0, self.size[k] + r.choice([-2, -1, 1, 1, 2]))
         return r.randrange(0, max(self.sizes) + 1)
 
-    def ev(self, op, k, **a):
+    def ev(me, op, k, **a):
         return {"op": op, "k": k + 1, "a": a or {"z": 0}}
 
     def path_nav(self, paths, n):
@@ -190,10 +246,12 @@ class Gen:
                 if t == 5:
                     self.size[k] = self.size[o]
                     return self.ev(r.choice(["CtorCopy", "CopyAssign"]), k)
-                if t == 6 and r.random() < 0.5:
+                if t == 6 and r.random() < 0.6:
+                    # the moved-from object is observed (re = 0) where this tree keeps it a valid container
+                    re_ = 0 if (self.moved_ok and r.random() < 0.7) else 1
                     self.size[k] = self.size[o]
-                    self.size[o] = 0 if self.vec else self.n
-                    return self.ev(r.choice(["CtorMove", "MoveAssign"]), k)
+                    self.size[o] = (0 if self.vec else self.n) if re_ else None
+                    return self.ev(r.choice(["CtorMove", "MoveAssign"]), k, re=re_)
                 continue
             if c < 0.30 and self.vec:
                 t = r.randrange(3)
@@ -208,36 +266,73 @@ class Gen:
                 i = r.choice([0, max(n - 1, 0), n, n + 1, r.randrange(0, n + 2), 64, 63])
                 h = 1 if r.random() < 0.15 else 0
                 return self.ev("At", k, c=r.choice(["m", "c"]), i=r.randrange(0, 3) if h else i, h=h)
-            if c < 0.52 and n > 0:
+            if c < 0.50 and n > 0:
                 path, nav, i = self.path_nav(READ_PATHS, n)
                 return self.ev("Read", k, path=path, nav=nav, i=i)
-            if c < 0.84 and n > 0:
+            if c < 0.82 and n > 0:
                 path, nav, i = self.path_nav(WRITE_PATHS, n)
-                kinds = ["a", "b", "scalar"] + (["pair", "pair", "from"] if self.cas else [])
+                kinds = ["a", "b", "scalar", "addeq"] + (["pair", "pair", "from", "addpair"] if self.cas else [])
+                if self.nmul < 8:
+                    kinds.append("muleq")
                 wk = r.choice(kinds)
                 e = [0, 0] if wk == "from" else self.elem()
+                if wk in ("addeq", "addpair"):
+                    e = [self.small(), e[1] if self.fl == "optional" else self.small()]       # small steps: no overflow in 50 calls
+                if wk == "muleq":
+                    self.nmul += 1
+                    e = [r.choice([-1, 0, 1, 1, 2]), 0]           # at most 8 doublings per execution
                 j = r.randrange(n) if wk == "from" else 0
                 return self.ev("Write", k, path=path, nav=nav, i=i, wk=wk, e=e, j=j)
-            if c < 0.92 and n > 0:
+            if c < 0.90 and n > 0:
                 which = r.choice(["a", "b"])
                 x = r.randrange(2) if (which == "b" and self.fl == "optional") else self.val()
                 return self.ev("WriteUnder", k, which=which, i=r.choice([0, n - 1, r.randrange(n)]), x=x)
-            if c < 0.95:
+            if c < 0.93:
                 return self.ev("Extract", k, which=r.choice(["a", "b"]))
+            if c < 0.95:
+                if self.fl == "optional" and r.random() < 0.6:
+                    return self.ev("Rel", k)
+                return self.ev("MaxSize", k)
+            if c < 0.97 and n > 1 and self.fl == "optional":
+                i = r.choice([0, n - 1, r.randrange(n), min(n - 1, 63)])
+                j = r.choice([x for x in (0, n - 1, r.randrange(n), min(n - 1, 64)) if x != i] or [(i + 1) % n])
+                return self.ev("ProxySwap", k, i=i, j=j)
             if c < 1.0:
                 paths = [p for p in ITER_PATHS if self.fwd or p not in ("iter", "citer")]
                 return self.ev("IterRel", k, path=r.choice(paths), i=r.choice([0, n, r.randrange(n + 1)]), j=r.choice([0, n, r.randrange(n + 1)]))
         return self.ev("Extract", 0, which="a")
 
+    def next(self):
+        """After a move whose source is observed the generator does not know the source's size: it is given one by a
+        call that sets the size whatever the object held (arrays keep their extent: nothing to do)."""
+        if None in self.size:
+            k = self.size.index(None)
+            if not self.vec:
+                self.size[k] = self.n
+                return self.ev("Extract", k, which=self.r.choice(["a", "b"]))
+            r = self.r
+            t = r.randrange(4)
+            if t == 0:
+                self.size[k] = self.size[1 - k]
+                return self.ev("CopyAssign", k)
+            m = self.pick_size(k)
+            self.size[k] = m
+            if t == 1:
+                return self.ev("Resize", k, n=m)
+            if t == 2:
+                return self.ev("ResizeV", k, n=m, v=self.value_arg())
+            return self.ev("CtorNV", k, n=m, v=self.value_arg())
+        return self.step()
 
-def random_script(seed, key, feats, nexec, nops, big_share):
-    rnd = random.Random("%d/%s" % (seed, key))
+
+def random_script(seed, key, feats, nexec, nops, big_share, caps, build="asan"):
+    rnd = random.Random("%d/%s/%s" % (seed, key, build))
     lines = []
     for _ in range(nexec):
-        g = Gen(rnd, key, feats, big=rnd.random() < big_share)
-        lines.append(reset_event(feats, key))
+        g = Gen(rnd, key, feats, big=rnd.random() < big_share, caps=caps)
+        lines.append(reset_event(feats, key, build))
         for _ in range(nops):
-            lines.append(g.step())
+            lines.append(g.next())
     return lines
 
 
@@ -250,14 +345,36 @@ def emitted(out):
     return res
 
 
+def enumerate_edges(ctx, cfg):
+    """TLC's enumeration of the L1 transitions of one configuration (tree-independent: cached under VERIF_DEV_FAST)."""
+    cache = None
+    if FAST:
+        stamp = max(os.path.getmtime(os.path.join(core.SPECS, f)) for f in ("ParSeq.tla", "ParSeqMC.tla", cfg))
+        cdir = os.path.join(core.ROOT, ".work", "C11-cache")
+        os.makedirs(cdir, exist_ok=True)
+        cache = os.path.join(cdir, "%s.%d.json" % (cfg, int(stamp)))
+        if os.path.exists(cache):
+            with open(cache) as f:
+                return json.load(f)
+    r3 = core.tlc(ctx, "ParSeqMC", cfg, name="s2c-enumerate-" + cfg[:-4], heap="8g", timeout=2400)
+    if r3["violated"]:
+        raise MachineryError("s2c enumeration failed: %s" % r3["outfile"])
+    es = emitted(r3["out"])
+    r3["out"] = ""
+    if cache:
+        with open(cache, "w") as f:
+            json.dump(es, f)
+    return es
+
+
 def key_of_cfg(c):
-    return KEY_OF[(c["fl"], c["ct"], c["n"])]
+    return PRIMARY[(c["fl"], c["ct"], c["n"])]
 
 
 def setup_events(key, feats, k, seq, rnd):
     """Events that put real object k (0-based) into the abstract state `seq` (list of pairs),
     by a randomly chosen constructor followed by element writes."""
-    fl, ct, n = TYPES[key]
+    fl, ct, n = TYPES[key][:3]
     fwd, cas = type_flags(feats, key)
     evs = []
     m = len(seq)
@@ -297,23 +414,20 @@ def setup_events(key, feats, k, seq, rnd):
     return evs
 
 
-def edge_scripts(edges, feats, rnd, limit=None):
-    """One execution per (type, source state): Reset, setup, then every transition out of that state;
-    after a call that changed an object its source state is re-established by constructors/writes."""
+def edge_scripts(edges, feats, rnd, as_key=None):
+    """One execution per (type, source state): Reset, setup, then every chosen transition out of that state;
+    after a call that changed an object its source state is re-established by constructors/writes.
+    as_key: replay the edges of configuration X on another type of the same configuration."""
     by_src = {}
     for e in edges:
-        key = key_of_cfg(e["c"])
+        key = as_key or key_of_cfg(e["c"])
         if not supported(feats, key, e["l"]):
             continue
         by_src.setdefault((key, json.dumps(e["p"])), []).append(e["l"])
-    total = sum(len(v) for v in by_src.values())
-    keep = 1.0 if not limit or total <= limit else limit / float(total)
     out, taken = {}, 0
     for (key, pj) in sorted(by_src):
         st = json.loads(pj)
         calls = by_src[(key, pj)]
-        if keep < 1.0:
-            calls = [c for c in calls if rnd.random() < keep] or calls[:1]
         calls.sort(key=lambda c: c["op"] not in OBSERVERS)      # observers first: no re-setup needed
         lines = out.setdefault(key, [])
         lines.append(reset_event(feats, key))
@@ -340,7 +454,7 @@ def edge_scripts(edges, feats, rnd, limit=None):
     return out, taken
 
 
-def sim_scripts(simdir, feats):
+def sim_scripts(simdir, feats, caps):
     out, n = {}, 0
     for fn in sorted(os.listdir(simdir)):
         states = tlaval.parse_sim_trace(os.path.join(simdir, fn))
@@ -356,15 +470,51 @@ def sim_scripts(simdir, feats):
                 continue
             if not supported(feats, key, ev):
                 break
+            if ev["op"] in MOVES and ev["a"].get("re") == 0:
+                # what the moved-from object holds is up to the implementation: the rest of the walk (which assumed one
+                # particular outcome) cannot be followed; the move itself is replayed where moved-from objects are observable
+                if caps["movedfrom"].get(key):
+                    lines.append(ev)
+                break
             lines.append(ev)
         n += 1
     return out, n
 
 
-def write_script(path, lines):
-    with open(path, "w") as f:
-        for l in lines:
-            f.write(json.dumps(l, separators=(",", ":")) + "\n")
+def upstream_scripts(feats):
+    """The call sequences of /repo/test/test_xcomplex_sequence.cpp and of the xoptional_vector cases of test_xoptional.cpp,
+    re-run through the logging harness: the same calls, every observer compared after every call."""
+    out = []
+    L = [reset_event(feats, "cv")]
+    E = lambda op, k=1, **a: L.append({"op": op, "k": k, "a": a or {"z": 0}})
+    E("CtorDefault", how="vinit"); E("CtorN", n=10); E("CtorNV", n=10, v=[1, 1])
+    E("CtorN", n=2); E("Resize", n=4); E("ResizeV", n=8, v=[1, 1])
+    E("CtorIL", es=[[1, 2], [2, 3]])
+    for i in (0, 1):
+        E("Read", path="index", nav="na", i=i); E("Read", path="at", nav="na", i=i)
+    E("Read", path="front", nav="na", i=0); E("Read", path="back", nav="na", i=1)
+    E("CtorIL", es=[[1, 2], [2, 3], [4, 6], [8, 12]])
+    for i in range(4):
+        E("Read", path="iter", nav="inc", i=i); E("Read", path="citer", nav="inc", i=i)
+    E("IterRel", path="iter", i=4, j=4); E("IterRel", path="citer", i=4, j=4)
+    for i in (3, 2, 1, 0):
+        E("Read", path="riter", nav="inc", i=i); E("Read", path="criter", nav="inc", i=i)
+    E("IterRel", path="riter", i=4, j=4); E("IterRel", path="criter", i=4, j=4)
+    E("Extract", which="a"); E("Extract", which="b")
+    out.append(("upstream-cv", "cv", L))
+    L = [reset_event(feats, "ovd")]
+    E("CtorNV", n=3, v=[2, 1]); E("Read", path="front", nav="na", i=0); E("Read", path="index", nav="na", i=0)
+    E("Write", path="index", nav="na", i=1, wk="pair", e=[0, 0], j=0); E("Read", path="index", nav="na", i=1); E("Extract", which="b")
+    E("CtorNV", n=4, v=[2, 1]); E("Write", path="index", nav="na", i=0, wk="pair", e=[0, 0], j=0)
+    for i in range(4):
+        E("Read", path="citer", nav="arrow", i=i)
+    E("CtorNV", 2, n=4, v=[1, 1]); E("Write", 2, path="index", nav="na", i=0, wk="pair", e=[0, 0], j=0)
+    E("Rel", 1); E("Rel", 2)
+    out.append(("upstream-ovd", "ovd", L))
+    return out
+
+
+write_script = drvrun.write_script
 
 
 def chunk_by_reset(lines, nchunks):
@@ -376,16 +526,15 @@ def chunk_by_reset(lines, nchunks):
     return [lines[a:b] for a, b in zip(cuts, cuts[1:] + [len(lines)])]
 
 
-def run_script(ctx, drv, key, script_path, trace_path):
-    env = dict(os.environ); env.update(core.ASAN_ENV)
-    with open(script_path) as fin, open(trace_path, "w") as fout:
-        p = subprocess.run([drv, key], stdin=fin, stdout=fout, stderr=subprocess.PIPE, env=env, timeout=1800)
-    if p.returncode == 3:
-        raise MachineryError("harness rejected script %s: %s" % (script_path, p.stderr.decode()[-500:]))
+def run_script(ctx, drv, key, lines, trace_path, name="script"):
+    """drv: {group: binary}.  A driver that dies has written a Crash event; drvrun records the call it died in and starts
+    the driver again at the next Reset."""
+    return drvrun.run_script(ctx, [drv[TYPES[key][3]], key], lines, trace_path, name, max_restarts=MAX_DRIVER_RESTARTS)
 
 
-def classify(findings):
+def classify(findings, ctx):
     def f(ev, execution):
+        ctx.notes.setdefault("_sigs", {})[len(ctx.violations)] = drvrun.signature_of(ev)
         for k in findings:
             m = k.get("match", {})
             if m and all(ev.get(x) == y or ev.get("a", {}).get(x) == y for x, y in m.items()):
@@ -394,40 +543,44 @@ def classify(findings):
     return f
 
 
-def dedupe_violations(ctx):
-    """The same failing call is usually met from many source states: report it once."""
-    import re
-    seen, keep = set(), []
-    for path, text in ctx.violations:
-        m = re.search(r'\{"op":"(\w+)".*?"a":(\{.*?\}),"res"', text)
-        sig = (m.group(1), m.group(2)) if m else text[:200]
-        if sig in seen:
-            try:
-                os.remove(path)
-            except OSError:
-                pass
-            continue
-        seen.add(sig)
-        keep.append((path, text))
-    ctx.notes["rejections_total"] = len(ctx.violations)
-    ctx.violations[:] = keep
+def key_of_reset(rs):
+    a = rs["a"]
+    return a.get("ty") or PRIMARY.get((a["fl"], a["ct"], a["n"])) or next(k for k, v in TYPES.items() if v[:3] == (a["fl"], a["ct"], a["n"]))
+
+
+def compile_probe(src, define, cxx=None):
+    cmd = [cxx or core.CXX, "-std=c++14", "-fsyntax-only", "-I", core.INCLUDE, "-I", os.path.join(core.HARNESS, "common"), "-D" + define, src]
+    return core.sh(cmd, timeout=300)
 
 
 def replay(ctx, path):
-    """./verif replay C11 <file>: re-run the recorded calls on the current tree and validate."""
-    lines = [l for l in core.read_ndjson(path) if "_meta" not in l]
+    """./verif replay C11 <file>: re-run the recorded calls on the current tree (same type, same driver build) and validate."""
+    raw = core.read_ndjson(path)
+    meta = next((l["_meta"] for l in raw if "_meta" in l and "kind" in l["_meta"]), {})
+    if meta.get("kind") in ("signature", "callprobe"):
+        rc, out = compile_probe(meta["src"], meta["define"])
+        if rc == 0:
+            print("replay accepted: %s compiles again" % meta.get("what", meta["src"]))
+            return 0
+        print("VIOLATION property=C11 replay=%s" % path)
+        print("  " + out[-1500:])
+        return 1
+    lines = drvrun.replay_lines(raw)
     rs = next((l for l in lines if l["op"] == "Reset"), None)
     if rs is None:
         raise MachineryError("replay file has no Reset event: %s" % path)
-    key = KEY_OF[(rs["a"]["fl"], rs["a"]["ct"], rs["a"]["n"])]
+    key = key_of_reset(rs)
+    flavour = rs["a"].get("build", "asan")
+    if flavour not in FLAVOURS:
+        flavour = "asan"
     feats = probe_features(ctx)
-    drv = build_driver(ctx, feats)
+    g = TYPES[key][3]
+    drv = {g: build_driver(ctx, feats, flavour, g)}
     for l in lines:
         if l["op"] == "Reset":
-            l["a"] = reset_event(feats, key)["a"]      # the features of the tree under test now
-    sp, tp = os.path.join(ctx.work, "replay.script"), os.path.join(ctx.work, "replay.ndjson")
-    write_script(sp, lines)
-    run_script(ctx, drv, key, sp, tp)
+            l["a"] = reset_event(feats, key, flavour)["a"]      # the features of the tree under test now
+    tp = os.path.join(ctx.work, "replay.ndjson")
+    run_script(ctx, drv, key, lines, tp, "replay")
     r = core.validate_trace(ctx, "ParSeqTrace", "ParSeqTrace.cfg", tp)
     if r["accepted"]:
         print("replay accepted: the recorded calls now conform to ParSeq.tla")
@@ -441,13 +594,13 @@ def selftest(ctx):
     """./verif selftest C11: a recorded trace is accepted; the same trace with one corrupted field is rejected
     at exactly that event; with one event removed it is rejected at the first event that no longer fits."""
     feats = probe_features(ctx)
-    drv = build_driver(ctx, feats)
+    drv = {1: build_driver(ctx, feats, "asan", 1)}
+    caps = {"movedfrom": {}}
     ok = True
     for key in ("ov", "ca3"):
-        lines = random_script(ctx.seed, key, feats, 1, 300, big_share=0.0)
-        sp, tp = os.path.join(ctx.work, "st-%s.script" % key), os.path.join(ctx.work, "st-%s.ndjson" % key)
-        write_script(sp, lines)
-        run_script(ctx, drv, key, sp, tp)
+        lines = random_script(ctx.seed, key, feats, 1, 300, 0.0, caps)
+        tp = os.path.join(ctx.work, "st-%s.ndjson" % key)
+        run_script(ctx, drv, key, lines, tp, "selftest")
         r = core.validate_trace(ctx, "ParSeqTrace", "ParSeqTrace.cfg", tp, explain=False)
         print("selftest %s: recorded trace of %d events accepted: %s" % (key, r["total"], r["accepted"]))
         ok = ok and r["accepted"]
@@ -481,22 +634,157 @@ def selftest(ctx):
     return 0 if ok else 2
 
 
+# ------------------------------------------------------------------ compile-time stage
+def signature_stage(ctx):
+    src = os.path.join(HDIR, "sigprobe.cpp")
+    rc, out = compile_probe(src, "C11_SEL=0")
+    ctx.notes["signature_rows"] = SIG_ROWS
+    if rc == 0:
+        return 0
+    text = open(src).read()
+
+    def one(n):
+        rc1, out1 = compile_probe(src, "C11_SEL=%d" % n)
+        return n, rc1, out1
+    bad = 0
+    with ThreadPoolExecutor(max_workers=core.NCPU) as ex:
+        for n, rc1, out1 in ex.map(one, range(1, SIG_ROWS + 1)):
+            if rc1 == 0:
+                continue
+            bad += 1
+            m = re.search(r"ROW\(%d,(.*?)\);\n" % n, text, re.S)
+            row = re.sub(r"\s+", " ", m.group(1)).strip() if m else "?"
+            first = next((l for l in out1.splitlines() if "error" in l), out1[:300])
+            ctx.violation("signature row %d of harness/parseq/sigprobe.cpp does not hold for this tree: %s ; compiler: %s" % (n, row[:600], first[:400]),
+                          replay_lines=[{"_meta": {"kind": "signature", "src": src, "define": "C11_SEL=%d" % n, "what": "signature row %d" % n}}])
+    if bad == 0:
+        raise MachineryError("sigprobe.cpp does not compile as a whole but every row does on its own:\n%s" % out[-2000:])
+    return bad
+
+
+def call_probe_stage(ctx):
+    src = os.path.join(HDIR, "callprobe.cpp")
+
+    def one(p):
+        rc, out = compile_probe(src, "C11_PROBE=%d" % p[0])
+        return p, rc, out
+    named, extra = 0, []
+    with ThreadPoolExecutor(max_workers=core.NCPU) as ex:
+        for (n, is_named, what), rc, out in ex.map(one, CALL_PROBES):
+            if rc == 0:
+                continue
+            first = next((l for l in out.splitlines() if "error" in l), out[:300])
+            if is_named:
+                named += 1
+                ctx.violation("a call the property names no longer compiles against this tree: %s (harness/parseq/callprobe.cpp, probe %d); compiler: %s" % (what, n, first[:500]),
+                              replay_lines=[{"_meta": {"kind": "callprobe", "src": src, "define": "C11_PROBE=%d" % n, "what": what}}])
+            else:
+                extra.append(what)
+    return named, extra
+
+
+def probe_moved_from(ctx, drv, feats):
+    """For every instantiation: is a moved-from container still a valid container of its type (both storages in
+    lockstep) on this tree?  A short script per type through the driver, validated by L1; the same script with copies
+    instead of moves is the control (a tree that fails it is broken anyway and is reported by the other stages).
+    Returns ({type: observable?}, {type: script to report})."""
+    ok, blame = {}, {}
+    pdir = ctx.sub("probe")
+    for key in TYPES:
+        fl, ct, n = TYPES[key][:3]
+        m = n if ct == "array" else 3
+        v = [7, 1] if fl == "optional" else [7, 2]
+        res = {}
+        for what, ops, a in (("move", ("CtorMove", "MoveAssign"), {"re": 0}), ("copy", ("CtorCopy", "CopyAssign"), {"z": 0})):
+            lines = [reset_event(feats, key),
+                     {"op": "CtorNV", "k": 1, "a": {"n": m, "v": v}},
+                     {"op": ops[0], "k": 2, "a": a},
+                     {"op": "CtorNV", "k": 1, "a": {"n": m, "v": v}},
+                     {"op": ops[1], "k": 2, "a": a}]
+            tp = os.path.join(pdir, "%s-%s.ndjson" % (what, key))
+            run_script(ctx, drv, key, lines, tp, "probe-" + what)
+            r = core.validate_trace(ctx, "ParSeqTrace", "ParSeqTrace.cfg", tp, explain=False)
+            res[what] = (bool(r["accepted"]), lines)
+            if what == "move" and res["move"][0]:
+                break           # no control needed
+        ok[key] = res["move"][0]
+        if not ok[key] and res["copy"][0]:
+            blame[key] = res["move"][1]
+    ctx.notes.pop("driver_restarts", None)
+    return ok, blame
+
+
+def advisory(ctx, traces):
+    """Operations the property does not name: what they do is recorded, never judged.
+    ProxySwap: does xoptional::swap on two element proxies exchange the two pairs?  Rel: do <,<=,>,>= of
+    xoptional_sequence behave like 'values compare lexicographically and the flags are equal'?"""
+    swaps = [0, 0]
+    rels = [0, 0]
+    for tp in traces:
+        prev = None
+        try:
+            f = open(tp)
+        except OSError:
+            continue
+        with f:
+            for line in f:
+                if '"op":"ProxySwap"' not in line and '"op":"Rel"' not in line:
+                    if '"st":' in line:
+                        prev = line
+                    continue
+                try:
+                    ev = json.loads(line)
+                    if ev["op"] == "ProxySwap" and prev:
+                        pv = json.loads(prev)
+                        k, i, j = ev["k"] - 1, ev["a"]["i"], ev["a"]["j"]
+                        before, after = pv["st"]["o"][k]["idx"], ev["st"]["o"][k]["idx"]
+                        swaps[0] += 1
+                        swaps[1] += int(after[i] == before[j] and after[j] == before[i])
+                    elif ev["op"] == "Rel" and ev["res"]["exc"] == "none":
+                        k = ev["k"] - 1
+                        x, y = ev["st"]["o"][k], ev["st"]["o"][1 - k]
+                        same = x["B"] == y["B"]
+                        ref = [int(x["A"] < y["A"] and same), int(x["A"] <= y["A"] and same), int(x["A"] > y["A"] and same), int(x["A"] >= y["A"] and same)]
+                        rels[0] += 1
+                        rels[1] += int(ev["res"]["val"] == ref)
+                except Exception:
+                    pass
+                prev = line
+    ctx.notes["advisory_not_judged"] = {
+        "proxy_swap_calls": swaps[0], "proxy_swap_exchanged_both_pairs": swaps[1],
+        "relational_calls": rels[0], "relational_like_lexicographic_values_and_equal_flags": rels[1]}
+
+
+def finish(ctx, q, caps, extra=""):
+    drvrun.dedupe_violations(ctx, MAX_REPORTED)
+    mf = caps.get("movedfrom", {})
+    return core.finish(
+        ctx, "model_checking",
+        rule="TLC: L1 (one sequence of pairs, two objects, every operation) exhaustive for two objects of sizes <= 2%s with its laws; L2 (two "
+             "separately sized storages transcribed from the headers) keeps them in lockstep and refines L1; L1 transitions for sizes 0..%d x "
+             "components {0,1} x all access paths and iterator navigations on the vector flavours, extents 3 and 0 on the array flavours, "
+             "enumerated by TLC and %s replayed on the real objects; TLC simulation walks; seeded random scripts on thirteen instantiations with "
+             "sizes up to 200 and extents 0/3/66/70 on %d driver builds.  A case is one call whose result and full projection (size(), both "
+             "storage sizes, elements from the underlying containers, operator[], forward and reverse iteration, ==, !=) are compared by TLC.%s" % (
+                 "" if q else " and one object of sizes <= 4", 3 if q else 4,
+                 "a sample (32 000; thorough 300 000) stratified over container type, action and argument class, a different one for every VERIF_SEED,", 2 if q else 4, extra),
+        assumptions=["objects are constructed by placement-new over memory pre-filled with 0xAA (harness built with -fno-lifetime-dse)",
+                     "moved-from containers are observed like any other object where this tree keeps them valid (%s); elsewhere (%s) the source of a "
+                     "move is destroyed and re-created at once" % (", ".join(k for k in TYPES if mf.get(k)) or "none", ", ".join(k for k in TYPES if not mf.get(k)) or "none"),
+                     "the relational operators of xoptional_sequence (<, <=, >, >=) and proxy swap are exercised but not judged (outside the property): "
+                     "only that they leave everything else alone; allocators are not modelled",
+                     "constructors taking a size are only called with the container's own size for the array flavours"],
+        exhaustive=False)
+
+
 def run(ctx):
     q = ctx.quick
     findings = core.load_findings(PID)
     rnd = random.Random(ctx.seed)
+    caps = {"movedfrom": {}}
 
-    # ---- 1. L1 model checking (the spec's own theorems)
-    mcs = [("ParSeq_mc.cfg", "two objects, sizes <= 2")]
-    if not q:
-        mcs.append(("ParSeq_mc_thorough.cfg", "one target object, sizes <= 4, representative second object, incl. builds without array iterators"))
-    for cfg, what in mcs:
-        r = core.tlc_model_check(ctx, "ParSeqMC", cfg, "L1 invariants (lockstep projections, array size fixed) and laws; " + what,
-                                 coverage=not q, timeout=1500)
-        if r["violated"]:
-            raise MachineryError("L1 spec ParSeq.tla violates its own theorem %s (oracle bug), see %s" % (r["violated"], r["outfile"]))
-
-    # ---- build the harness from the include tree under test
+    # ---- 0. compile-time stage; driver builds in the background while TLC runs
+    nsig = signature_stage(ctx)
     feats = probe_features(ctx)
     ctx.notes["features"] = {"xoptional_array forward iterators compile": feats["oaf"],
                              "xcomplex_array forward iterators compile": feats["caf"],
@@ -506,95 +794,202 @@ def run(ctx):
         print("NOTE property=C11 `container[i] = xcomplex<T>(re, im)` does not compile with these headers "
               "(xcomplex::operator= reads private members of another instantiation); whole-element writes to complex "
               "containers are not exercised, component writes are (see proposed_fixes/C11-05)")
-    drv = build_driver(ctx, feats)
+    flavours = ["asan"] if ONLY_RND else ["asan", "o2ndebug"] + ([] if q else ["clang", "o0"])
+    # (flavour, group): the secondary builds of the quick tier only cover the six original instantiations
+    jobs = [(fl, g) for fl in flavours for g in (1, 2) if not (q and fl != "asan" and g == 2)]
+    builds, build_err = {}, {}
 
-    scripts = []   # (name, key, lines)
+    def do_builds():
+        def one(j):
+            try:
+                builds[j] = build_driver(ctx, feats, j[0], j[1])
+            except MachineryError as x:
+                build_err[j] = str(x)
+        with ThreadPoolExecutor(max_workers=max(1, min(len(jobs), core.NCPU // 2))) as ex:
+            list(ex.map(one, jobs))
+    bt = threading.Thread(target=do_builds)
+    bt.start()
 
-    # ---- 2. S->C: every L1 transition, sizes 0..3 (quick) / 0..4 (thorough), four container families
+    try:
+        # ---- 1. L1 model checking (the spec's own theorems)
+        mcs = [("ParSeq_mc.cfg", "two objects, sizes <= 2")]
+        if not q:
+            mcs.append(("ParSeq_mc_thorough.cfg", "one target object, sizes <= 4, representative second object, incl. builds without array iterators"))
+        for cfg, what in ([] if FAST else mcs):
+            r = core.tlc_model_check(ctx, "ParSeqMC", cfg, "L1 invariants (lockstep projections, array size fixed) and laws; " + what,
+                                     coverage=not q, timeout=2400)
+            if r["violated"]:
+                raise MachineryError("L1 spec ParSeq.tla violates its own theorem %s (oracle bug), see %s" % (r["violated"], r["outfile"]))
+            if not q:
+                ctx.notes.setdefault("l1_action_coverage", {}).update({k: v for k, v in r.get("coverage", {}).items()})
+    finally:
+        bt.join()
+
+    if ("asan", 1) in build_err or ("asan", 2) in build_err:
+        err = build_err.get(("asan", 1)) or build_err.get(("asan", 2))
+        named, extra = call_probe_stage(ctx)
+        if named or nsig:
+            ctx.log("the conformance driver does not build against this tree; %d signature rows and %d named call families fail" % (nsig, named))
+            ctx.notes["driver_build_failed"] = err[-1500:]
+            return finish(ctx, q, caps, " The run-time stages were skipped: the driver does not build against this tree.")
+        raise MachineryError("the C11 driver does not build although every signature row and every call the property names compiles"
+                             "%s:\n%s" % ((" (not named by the property, but used by the harness: %s)" % "; ".join(extra)) if extra else "", err))
+    for j in build_err:
+        raise MachineryError("driver build %s failed: %s" % (j, build_err[j]))
+    drv = {fl: {g: builds[(fl, g)] for g in (1, 2) if (fl, g) in builds} for fl in flavours}
+
+    caps["movedfrom"], mf_scripts = probe_moved_from(ctx, drv["asan"], feats)
+    ctx.notes["moved_from_container_is_valid"] = caps["movedfrom"]
+    for k in TYPES:
+        if not caps["movedfrom"][k] and k not in MOVED_FROM_INVALID_OK and k in mf_scripts:
+            ctx.violation("a moved-from %s is not a valid container on this tree: after move construction / move assignment its two storages are "
+                          "not in lockstep (or the driver crashed observing it).  The other stages re-create the source of such a move at once." % WHAT[k],
+                          replay_lines=mf_scripts[k])
+    bad_mf = [k for k in TYPES if not caps["movedfrom"][k] and k in MOVED_FROM_INVALID_OK]
+    if bad_mf:
+        print("NOTE property=C11 a moved-from container is not observed for %s on this tree (its two storages do not stay in lockstep: a moved-from "
+              "xoptional_array keeps its values and loses its flags; outside the property's operations, see proposed_fixes/C11-06): the source of "
+              "such a move is destroyed and re-created at once" % ", ".join(bad_mf))
+
+    # ---- 1b. L2: two separately sized storages
+    arrays_ok = all(caps["movedfrom"][k] for k in ("oa3", "oa70"))
+    for cfg2 in ([] if FAST else ["ParSeqImpl_mc.cfg"] if q else ["ParSeqImpl_mc.cfg", "ParSeqImpl_mc_thorough.cfg"]):
+        cfg2 = cfg2 if arrays_ok else cfg2.replace("_mc", "_mcam")
+        r2 = core.tlc_model_check(ctx, "ParSeqImpl", cfg2, "L2 (two separately sized storages) stays in lockstep and refines L1", timeout=2400)
+        if r2["violated"]:
+            ctx.drift.append("ParSeqImpl.tla: %s violated (%s); see %s" % (r2["violated"], cfg2, r2["outfile"]))
+
+    scripts = []   # (name, key, lines, flavour)
+
+    # ---- 2. S->C: every L1 transition, sizes 0..3 (quick) / 0..4 (thorough), four container families + extent-0 arrays
     edges = []
-    for cfg in (["ParSeq_s2c_vec.cfg", "ParSeq_s2c_arr.cfg"] if q else ["ParSeq_s2c_vec_thorough.cfg", "ParSeq_s2c_arr.cfg"]):
-        r3 = core.tlc(ctx, "ParSeqMC", cfg, name="s2c-enumerate-" + cfg[:-4], heap="8g", timeout=1500)
-        if r3["violated"]:
-            raise MachineryError("s2c enumeration failed: %s" % r3["outfile"])
-        edges.extend(emitted(r3["out"]))
-        r3["out"] = ""
+    for cfg in ([] if ONLY_RND else ["ParSeq_s2c_vec.cfg", "ParSeq_s2c_arr.cfg"] if q else ["ParSeq_s2c_vec_thorough.cfg", "ParSeq_s2c_arr.cfg"]):
+        edges.extend(enumerate_edges(ctx, cfg))
+
+    def usable(e, key):
+        if e["l"]["op"] in MOVES and e["l"]["a"]["re"] == 0 and not caps["movedfrom"][key]:
+            return False
+        return True
     per_op = {}
     for e in edges:
         per_op[e["l"]["op"]] = per_op.get(e["l"]["op"], 0) + 1
     ctx.notes["s2c_transitions_per_action"] = per_op
     ctx.notes["actions_never_enumerated"] = sorted(set(ALL_OPS) - set(per_op))
-    per_type, taken = edge_scripts(edges, feats, rnd, limit=40000 if q else None)
+    prim = [e for e in edges if usable(e, key_of_cfg(e["c"]))]
+    sample, stats = drvrun.stratified_sample(prim, 32000 if q else 300000, rnd,
+                                             action_of=lambda e: (key_of_cfg(e["c"]), e["l"]["op"]))
+    per_type, taken = edge_scripts(sample, feats, rnd)
+    ctx.notes["s2c_per_type_action_enumerated_replayed"] = stats
+    # the other instantiations of the same configurations: a smaller stratified sample each
+    for pk, others in sorted(ALIASES.items()):
+        mine = [e for e in edges if key_of_cfg(e["c"]) == pk]
+        for ak in others:
+            sub = [e for e in mine if usable(e, ak)]
+            smp, st2 = drvrun.stratified_sample(sub, 2500 if q else 20000, rnd)
+            pt, tk = edge_scripts(smp, feats, rnd, as_key=ak)
+            taken += tk
+            for key, lines in pt.items():
+                per_type.setdefault(key, []).extend(lines)
     nev = sum(len(v) for v in per_type.values())
-    ctx.log("S->C: %d L1 transitions enumerated by TLC, %d replayed (%d script events)" % (len(edges), taken, nev))
+    ctx.log("S->C: %d L1 transitions enumerated by TLC, %d replayed (%d script events) on %d instantiations" % (len(edges), taken, nev, len(per_type)))
     ctx.notes["s2c_transitions_enumerated"] = len(edges)
     ctx.notes["s2c_transitions_replayed"] = taken
     for key, lines in sorted(per_type.items()):
-        for i, ch in enumerate(chunk_by_reset(lines, 3 if q else 6)):
-            scripts.append(("s2c-%s-%02d" % (key, i), key, ch))
+        for i, ch in enumerate(chunk_by_reset(lines, (3 if TYPES[key][4] == key else 1) if q else 6)):
+            scripts.append(("s2c-%s-%02d" % (key, i), key, ch, "asan"))
 
     # ---- 2b. TLC simulation walks (longer histories on both objects)
     simdir = ctx.sub("sim")
     nsim = 200 if q else 2000
-    core.tlc(ctx, "ParSeqMC", "ParSeq_sim.cfg", name="s2c-simulate",
-             simulate="file=%s/t,num=%d" % (simdir, nsim), extra=["-depth", "30", "-seed", str(ctx.seed)], workers=4)
-    per_type, nwalks = sim_scripts(simdir, feats)
+    if not ONLY_RND:
+        core.tlc(ctx, "ParSeqMC", "ParSeq_sim.cfg", name="s2c-simulate",
+                 simulate="file=%s/t,num=%d" % (simdir, nsim), extra=["-depth", "30", "-seed", str(ctx.seed)], workers=min(4, core.NCPU))
+    per_type, nwalks = sim_scripts(simdir, feats, caps)
     ctx.notes["s2c_simulation_walks"] = nwalks
     for key, lines in sorted(per_type.items()):
-        scripts.append(("sim-%s" % key, key, lines))
+        scripts.append(("sim-%s" % key, key, lines, "asan"))
 
-    # ---- 3. C->S random scripts for every instantiation, sizes up to 200
-    for key in TYPES:
-        nexec, nops = (40, 40) if q else (400, 50)
-        lines = random_script(ctx.seed, key, feats, nexec, nops, big_share=0.3 if TYPES[key][1] == "vector" else 1.0)
-        for i, ch in enumerate(chunk_by_reset(lines, 1 if q else 4)):
-            scripts.append(("rnd-%s-%d" % (key, i), key, ch))
+    # ---- 2c. the upstream tests' own call sequences through the logging harness
+    for name, key, lines in upstream_scripts(feats):
+        scripts.append((name, key, lines, "asan"))
+
+    # ---- 3. C->S random scripts for every instantiation, sizes up to 200, on every driver build
+    for fl in flavours:
+        for key in TYPES:
+            if TYPES[key][3] not in drv[fl]:
+                continue
+            nexec, nops = (40, 40) if q else (400, 50)
+            if TYPES[key][3] == 2:
+                nexec = nexec // 2
+            if fl != "asan":
+                nexec = max(6, nexec // 4)
+            if TYPES[key][2] == 0 and TYPES[key][1] == "array":
+                nexec = max(3, nexec // 8)           # extent 0: there is little to do
+            lines = random_script(ctx.seed, key, feats, nexec, nops, 0.3 if TYPES[key][1] == "vector" else 1.0, caps, build=fl)
+            for i, ch in enumerate(chunk_by_reset(lines, 1 if (q or fl != "asan") else 4)):
+                scripts.append(("rnd-%s-%s-%d" % (fl, key, i), key, ch, fl))
 
     # ---- the property demands forward iterators for every flavour: ask each array build
     for key in ("oa3", "ca3"):
-        scripts.append(("feature-%s" % key, key, [reset_event(feats, key), {"op": "Feature", "k": 1, "a": {"name": "fwd_iter"}}]))
+        scripts.append(("feature-%s" % key, key, [reset_event(feats, key), {"op": "Feature", "k": 1, "a": {"name": "fwd_iter"}}], "asan"))
 
     # ---- probes for open known findings
     for fnd in findings:
         if "probe" in fnd:
             key = fnd["probe"]["type"]
             lines = [reset_event(feats, key)] + [l for l in fnd["probe"]["script"] if l["op"] != "Reset"]
-            scripts.append(("probe-" + fnd["id"], key, lines))
+            scripts.append(("probe-" + fnd["id"], key, lines, "asan"))
 
     # ---- run the harness
+    scripts = [x for x in scripts if x[2]]
     tdir = ctx.sub("traces")
 
     def one(item):
-        name, key, lines = item
-        sp = os.path.join(tdir, name + ".script")
+        name, key, lines, fl = item
         tp = os.path.join(tdir, name + ".ndjson")
-        write_script(sp, lines)
-        run_script(ctx, drv, key, sp, tp)
+        run_script(ctx, drv[fl], key, lines, tp, name)
         return tp
     with ThreadPoolExecutor(max_workers=max(2, core.NCPU // 2)) as ex:
         traces = list(ex.map(one, scripts))
-    for name, key, lines in scripts:
+    for name, key, lines, fl in scripts:
         ctx.cov["traces_validated_against_impl"] += sum(1 for l in lines if l["op"] == "Reset")
     ctx.sample({"script": [json.dumps(x) for x in scripts[0][2][:12]]})
     rs = [s for s in scripts if s[0].startswith("rnd-")]
     if rs:
         ctx.sample({"script": [json.dumps(x) for x in rs[0][2][:8]]})
 
-    # ---- validate every trace against L1
-    core.validate_traces(ctx, "ParSeqTrace", "ParSeqTrace.cfg", traces, classify=classify(findings))
-    dedupe_violations(ctx)
+    # ---- validate every trace against L1 (a few traces per TLC process: JVM start-up dominates small ones)
+    merged = merge_traces(ctx, traces, 10 if q else 24)
+    core.validate_traces(ctx, "ParSeqTrace", "ParSeqTrace.cfg", merged, classify=classify(findings, ctx), max_restarts=3)
+    advisory(ctx, traces)
     ctx.cov["evaluations"] = ctx.cov["events_validated"]
     ctx.log("validated %d events in %d traces (%d executions)" % (ctx.cov["events_validated"], len(traces), ctx.cov["traces_validated_against_impl"]))
+    return finish(ctx, q, caps)
 
-    return core.finish(
-        ctx, "model_checking",
-        rule="TLC: L1 (one sequence of pairs, two objects, every operation) exhaustive for two objects of sizes <= 2%s with its laws; every L1 "
-             "transition for sizes 0..%d x components {0,1} x all access paths and iterator navigations on the vector flavours, "
-             "extent 3 on the array flavours, replayed on the real objects%s; TLC simulation walks; seeded random scripts on six "
-             "instantiations with sizes up to 200 and extents 3/66/70.  A case is one call whose result and full projection "
-             "(size(), both storage sizes, elements from the underlying containers, operator[], forward and reverse iteration, "
-             "==, !=) are compared by TLC." % ("" if q else " and one object of sizes <= 4", 3 if q else 4, " (sampled to 40 000, a different sample for every VERIF_SEED)" if q else ""),
-        assumptions=["objects are constructed by placement-new over memory pre-filled with 0xAA (harness built with -fno-lifetime-dse)",
-                     "moved-from objects are destroyed and re-created at once; max_size(), allocators and the relational operators "
-                     "of xoptional_sequence (<, <=, >, >=) are not modelled",
-                     "constructors taking a size are only called with the container's own size for the array flavours"],
-        exhaustive=False)
+
+def merge_traces(ctx, traces, nfiles):
+    """Every execution starts with a Reset event that carries its configuration, so traces of different instantiations can
+    share a file.  Concatenate the small ones (greedy, largest first) into about nfiles files."""
+    sized = sorted(((os.path.getsize(t), t) for t in traces), reverse=True)
+    bins = [[0, []] for _ in range(max(1, min(nfiles, len(sized))))]
+    for sz, t in sized:
+        b = min(bins, key=lambda x: x[0])
+        b[0] += sz
+        b[1].append(t)
+    out = []
+    mdir = ctx.sub("merged")
+    for i, (sz, ts) in enumerate(bins):
+        if not ts:
+            continue
+        if len(ts) == 1:
+            out.append(ts[0])
+            continue
+        p = os.path.join(mdir, "m%02d.ndjson" % i)
+        with open(p, "w") as f:
+            for t in ts:
+                with open(t) as g:
+                    for line in g:
+                        if line.strip():
+                            f.write(line if line.endswith("\n") else line + "\n")
+        out.append(p)
+    return out
